@@ -411,6 +411,15 @@ def pattern_to_delete(q, r, delete_atoms=True):
 
 
 def clauses(q, r, mol, kw=None, fix_rings=False, limit=12, builtin=False):
+    try:
+        return _clauses(q, r, mol, kw, fix_rings, limit, builtin)
+    except Exception as e:
+        import traceback
+        return [('product-graph', f'the clause oracle could not read the product: {type(e).__name__}: {e} '
+                                  f'({traceback.format_exc().splitlines()[-3].strip()})')]
+
+
+def _clauses(q, r, mol, kw=None, fix_rings=False, limit=12, builtin=False):
     """Evaluate the property's clauses on the REAL Transformer output for (q -> r) on mol.
     Returns a list of (clause, detail). Independent of the Lean model."""
     from chython import Transformer
@@ -443,15 +452,22 @@ def clauses(q, r, mol, kw=None, fix_rings=False, limit=12, builtin=False):
                 named[n] = nxt
                 new_numbers.append(nxt)
         patched = set(named.values())
-        expect_atoms = (set(mol._atoms) - dele) | patched
         if len(patched) != len(named):
             bad.append(('unique-numbers', f'replacement atoms share a product number: {named}'))
-        if set(p._atoms) != expect_atoms:
-            bad.append(('deleted-exact', f'match {mp}: product atoms {sorted(p._atoms)} expected {sorted(expect_atoms)} '
+        old_expect = set(mol._atoms) - dele
+        old_got = set(p._atoms) & set(mol._atoms)
+        got_new = [n for n in p._atoms if n not in mol._atoms]
+        if old_got != old_expect:
+            bad.append(('deleted-exact', f'match {mp}: surviving atoms {sorted(old_got)} expected {sorted(old_expect)} '
                                          f'(deleted spec {sorted(dele)})'))
             continue
-        if len(set(p._atoms)) != len(list(p._atoms)) or any(n in mol._atoms for n in new_numbers):
-            bad.append(('unique-numbers', f'new numbers {new_numbers} collide'))
+        if len(got_new) != len(new_numbers) or len(set(p._atoms)) != len(list(p._atoms)):
+            bad.append(('unique-numbers', f'match {mp}: {len(new_numbers)} new replacement atoms but the product has the new '
+                                          f'numbers {got_new} (atoms {sorted(p._atoms)})'))
+            continue
+        if sorted(got_new) != new_numbers:
+            # a different but collision-free numbering scheme: new atoms cannot be identified, skip the named clauses
+            continue
         # frame: atoms the template does not name
         for n, sa in mol._atoms.items():
             if n in dele or n in patched:
@@ -726,7 +742,8 @@ def add_reactor_cases(cases, name, patterns, products, kw, mols, tag, limit=4):
                 stream = 'single_stage_split'
             else:
                 exp, stream = 'ok ' + render_mol(outs[k][0]), 'single_stage'
-            cases.add(stream, f'{name} on {tag} chosen {chosen_i} match {mapping}', 'stage ' + ' '.join(map(str, req)), exp)
+            cases.add(stream, f'{name} on {tag} chosen {chosen_i} match {mapping}', 'stage ' + ' '.join(map(str, req)), exp,
+                      replay=reactor_replay(name, patterns, products, kw, mols))
             total += 1
             if err is not None:
                 break
@@ -758,7 +775,7 @@ def reactor_clauses(patterns, products, kw, mols, rng, builtin=False, limit=20):
             for p in rxn.products:
                 if p.check_valence():
                     bad.append(('valence-valid', f'product {p} of {rxn} has valence errors at {p.check_valence()}'))
-    key = lambda rs: sorted({'.'.join(sorted(str(p) for p in r.products)) for r in rs})
+    key = lambda rs: sorted({'.'.join(sorted(sig_str(p) for p in r.products)) for r in rs})
     kb = key(base)
     if len(base) < limit:
         # reactant order
@@ -775,7 +792,7 @@ def reactor_clauses(patterns, products, kw, mols, rng, builtin=False, limit=20):
         ms = []
         for m in mols:
             m2 = molgen.renumber(rng, m)[0]
-            ms.append(m2 if str(m2) == str(m) else m.copy())
+            ms.append(m2 if sig_str(m2) == sig_str(m) else m.copy())
         try:
             other = key(run(ms))
             if other != kb:
@@ -812,6 +829,12 @@ def reactor_inputs(ctx, patterns, n_sets):
     if not all(cands):
         return []
     out = []
+    # deterministic sets: a spectator molecule last (its numbers end up above the reactants') and first
+    from chython import smiles
+    first = [c[0] for c in cands]
+    for spect, pos in (('CNCC', 'last'), ('CCOCC', 'first')):
+        ms = first + [(spect, smiles(spect))] if pos == 'last' else [(spect, smiles(spect))] + first
+        out.append(('+'.join(b for b, _ in ms), [m.copy() for _, m in ms]))
     for _ in range(n_sets):
         pick = [ctx.rng.choice(c) for c in cands]
         extra = [ctx.rng.choice(blocks())] if ctx.rng.random() < 0.6 else []
@@ -885,6 +908,10 @@ def correspond(ctx):
                     hit[name] = hit.get(name, 0) + 1
                     for cl, det in clauses(q, r, vm, kw, fix_rings=False, limit=4 if ctx.quick else 12):
                         ctx.fail(f'C16/{cl}', f'{name} on {vtag}: {det}', replay_input(name, q, r, kw, vm))
+                    if vm is mol and (not ctx.quick or hit[name] <= 8):
+                        ctx.dist('numbering-independence-checked')
+                        for cl, det in numbering_clauses(q, r, vm, kw, rng, rounds=1):
+                            ctx.fail(f'C16/{cl}', f'{name} on {vtag}: {det}', replay_input(name, q, r, kw, vm))
     for name, *_ in synth:
         ctx.dist('template-hit:' + name, hit.get(name, 0))
         if not hit.get(name):
@@ -993,16 +1020,32 @@ def probe_orders(inp, cap=1000):
     return False, f'all {n} bond insertion orders give {expect}'
 
 
-def probe_transform(inp):
+def transform_failures(inp, numbering=True):
+    """all clause failures of one (template, molecule) replay input on the real code"""
     from chython import smarts
     mol = wire.ints_to_mol(inp['wire'], calc=True)[0]
     q, r = smarts(inp['pattern']), parse_repl(inp['replacement'])
-    bad = clauses(q, r, mol, inp.get('kwargs') or {}, fix_rings=bool(inp.get('fix_rings')), limit=50,
-                  builtin=inp.get('template', '').startswith(('deprotection', 'reactions')))
-    bad += numbering_clauses(q, r, mol, inp.get('kwargs') or {})
+    kw = inp.get('kwargs') or {}
+    builtin = inp.get('template', '').startswith(('deprotection', 'reactions'))
+    bad = clauses(q, r, mol, kw, fix_rings=bool(inp.get('fix_rings')), limit=50, builtin=builtin)
+    if not inp.get('fix_rings'):
+        bad += clauses(q, r, mol, kw, fix_rings=True, limit=50, builtin=builtin)
+    if numbering:
+        bad += numbering_clauses(q, r, mol, kw)
+    return bad
+
+
+def probe_transform(inp):
+    bad = transform_failures(inp)
     if bad:
         return True, '; '.join(f'{c}: {d}' for c, d in bad[:4])
     return False, 'all clauses hold'
+
+
+def sig_str(m):
+    """canonical string used for the independence clauses: hydrogens shown, stereo marks dropped (the canonical ordering of
+    symmetric stereo systems is a recorded gap of C01 and the stereo translation is outside this check's model)"""
+    return format(m, 'h!s')
 
 
 def numbering_clauses(q, r, mol, kw=None, rng=None, rounds=2):
@@ -1014,26 +1057,152 @@ def numbering_clauses(q, r, mol, kw=None, rng=None, rounds=2):
     t = Transformer(q, r, **kw)
     bad = []
     try:
-        base = sorted({str(p) for p in t(mol)})
+        prods = list(itertools.islice(t(mol), 50))
+        base = sorted({sig_str(p) for p in prods})
     except Exception as e:
         return [('numbering-independence', f'transformer raised {type(e).__name__}: {e}')]
+    # the canonical strings of the products themselves must be renumbering-stable, otherwise the comparison says nothing
+    for p in prods[:6]:
+        if sig_str(molgen.renumber(rng, p)[0]) != sig_str(p):
+            return []
     for _ in range(rounds):
         m2 = molgen.renumber(rng, mol)[0]
-        if str(m2) != str(mol):
+        if sig_str(m2) != sig_str(mol):
             continue   # canonical string itself not invariant here: that is C01's business, not a template defect
         try:
-            other = sorted({str(p) for p in t(m2)})
+            other = sorted({sig_str(p) for p in itertools.islice(t(m2), 50)})
         except Exception as e:
             bad.append(('numbering-independence', f'renumbered input raised {type(e).__name__}: {e}'))
             continue
         if other != base:
-            bad.append(('numbering-independence', f'products {base} vs {other} after renumbering {wire.mol_to_ints(m2)}'))
+            cl = 'numbering-independence'
+            if kw.get('automorphism_filter', True):
+                # Is the difference explained by the documented automorphism filter ("skip matches to the same atoms":
+                # which of the matches onto one atom set survives depends on the enumeration order)? Then every product
+                # of either numbering is among the products of the unfiltered enumeration, which itself is
+                # numbering-independent. Recorded as a known finding with its own signature.
+                kw2 = dict(kw, automorphism_filter=False)
+                t2 = Transformer(q, r, **kw2)
+                try:
+                    full1 = {sig_str(p) for p in itertools.islice(t2(mol), 400)}
+                    full2 = {sig_str(p) for p in itertools.islice(t2(m2), 400)}
+                    if full1 == full2 and set(base) <= full1 and set(other) <= full1:
+                        cl = 'numbering-independence/automorphism-filter'
+                except Exception:
+                    pass
+            bad.append((cl, f'products {base} vs {other} after renumbering {wire.mol_to_ints(m2)}'))
     return bad
 
 
+def probe_numbering_pair(inp):
+    from chython import smarts, Transformer
+    q, r = smarts(inp['pattern']), parse_repl(inp['replacement'])
+    t = Transformer(q, r, **(inp.get('kwargs') or {}))
+    a = wire.ints_to_mol(inp['wire_a'], calc=True)[0]
+    b = wire.ints_to_mol(inp['wire_b'], calc=True)[0]
+    if sig_str(a) != sig_str(b):
+        return None, 'the two inputs are not the same structure'
+    pa = sorted({sig_str(p) for p in t(a)})
+    pb = sorted({sig_str(p) for p in t(b)})
+    return pa != pb, f'same molecule {sig_str(a)} in two numberings gives product sets {pa} and {pb}'
+
+
 def search(ctx):
-    """property-level oracle on the real code, starting from the disagreeing cases"""
-    return
+    """Failing-input search: property-level oracle (`clauses`, `numbering_clauses`, `reactor_clauses`, `deleted_spec`) on the
+    real code only, starting from the disagreeing cases, then their neighbourhood (same templates on more molecules)."""
+    import time
+    from chython import smarts, smiles
+    t0 = time.time()
+    budget = 60 if ctx.quick else 600
+    rng = ctx.rng
+    seen = set()
+
+    def report(bad, what_prefix, inp):
+        for cl, det in bad:
+            sig = f'C16/{cl}'
+            if sig not in seen:
+                seen.add(sig)
+                ctx.fail(sig, f'{what_prefix}: {det}', inp)
+
+    # 1. the disagreeing cases themselves
+    templates = {}
+    for d in getattr(ctx, 'disagree', [])[:300]:
+        rp = d.get('replay')
+        if time.time() - t0 > budget / 3:
+            break
+        if d['stream'] == 'del':
+            xs = list(map(int, d['request'].split()[1:]))
+            it = iter(xs)
+            tpl = [next(it) for _ in range(next(it))]
+            mapping = {}
+            for _ in range(next(it)):
+                k = next(it)
+                mapping[k] = next(it)
+            bonds = {}
+            for _ in range(next(it)):
+                n = next(it)
+                bonds[n] = {next(it): 1 for _ in range(next(it))}
+            got = impl_del(bonds, tpl, mapping)
+            try:
+                spec = 'ok ' + ' '.join(map(str, sorted(spec_del(bonds, tpl, mapping))))
+            except KeyError:
+                continue
+            if got.startswith('ok') and got != spec:
+                report([('deleted-exact', f'_get_deleted returned {got}, spec {spec}')], d['tag'],
+                       {'kind': 'del', 'bonds': {str(k): list(v) for k, v in bonds.items()}, 'tpl': tpl,
+                        'mapping': {str(k): v for k, v in mapping.items()}})
+        elif rp and rp.get('kind') == 'transform':
+            templates[rp['template']] = rp
+            try:
+                report(transform_failures(rp), f"{rp['template']} on {d['tag']}", rp)
+            except Exception as e:
+                ctx.notes.append(f'search: replay of {d["tag"]} raised {type(e).__name__}: {e}')
+        elif rp and rp.get('kind') == 'reactor':
+            try:
+                fails, what = probe_reactor(rp)
+                if fails:
+                    report([(what.split(':')[0], what)], rp['template'], rp)
+            except Exception as e:
+                ctx.notes.append(f'search: reactor replay raised {type(e).__name__}: {e}')
+    if ctx.failures:
+        return
+    # 2. neighbourhood: the implicated templates (or all, when a theorem / translator broke) on more molecules
+    pool = []
+    for name, qs, rs, kw in SYNTHETIC:
+        if not templates or ('synthetic.' + name) in templates:
+            pool.append(('synthetic.' + name, qs, rs, kw))
+    for name, qs, rs, tests in builtin_deprotection():
+        if not templates or name in templates:
+            pool.append((name, qs, rs, {}))
+    mols = molecules_for(ctx, 250 if ctx.quick else 1500)
+    rng.shuffle(mols)
+    for tag, mol in mols:
+        if time.time() - t0 > budget or ctx.failures:
+            break
+        for name, qs, rs, kw in pool:
+            try:
+                q, r = smarts(qs), parse_repl(rs)
+                if not (q < mol):
+                    continue
+                rp = {'kind': 'transform', 'template': name, 'pattern': qs, 'replacement': rs, 'kwargs': kw,
+                      'fix_rings': False, 'wire': wire.mol_to_ints(mol)}
+                report(transform_failures(rp, numbering=True), f'{name} on {tag}', rp)
+            except Exception as e:
+                ctx.notes.append(f'search: {name} on {tag} raised {type(e).__name__}: {e}')
+                continue
+    # 3. reactors
+    if not ctx.failures:
+        for name, R in builtin_reactions():
+            if time.time() - t0 > budget:
+                break
+            pats, prods = list(R._patterns), list(R._products)
+            for tag, ms in reactor_inputs(ctx, pats, 3):
+                try:
+                    report(reactor_clauses(pats, prods, {'automorphism_filter': False}, ms, rng, builtin=True), f'{name} on {tag}',
+                           reactor_replay(name, pats, prods, {'automorphism_filter': False}, ms))
+                except Exception as e:
+                    ctx.notes.append(f'search: reactor {name} raised {type(e).__name__}: {e}')
+    ctx.notes.append(f'search: {time.time() - t0:.0f}s, {len(seen)} failing clause(s) found')
 
 
 def probe(inp):
@@ -1049,4 +1218,6 @@ def probe(inp):
         return probe_transform(inp)
     if inp.get('kind') == 'reactor':
         return probe_reactor(inp)
+    if inp.get('kind') == 'numbering-pair':
+        return probe_numbering_pair(inp)
     return None, 'unknown probe kind'
